@@ -40,7 +40,7 @@ def run(tier, seed):
     ok, msg = U.regen_table()
     if not ok:
         chk.violation("broken-obligation", "pause-table-translator", dict(error=msg), no_input=True)
-    gate = vlib.coq_gate(PROP)
+    gate = vlib.coq_gate(PROP, extra_targets=["Model/UnitEnv.vo", "gen/GenPauseTable.vo"])
     vlib.gate_or_violation(chk, gate)
     try:
         rig = e2e.Rig()
